@@ -4,6 +4,8 @@ import Mathlib.Data.Rat.Floor
 import Mathlib.Tactic.NormNum
 import TapkeeVerif.Proofs.SpeIndex
 import TapkeeVerif.Proofs.SpeLocal
+import TapkeeVerif.Proofs.SpeSeparate
+import TapkeeVerif.Gen.SpeVariant
 import TapkeeVerif.Proofs.SpeAlgebra
 import TapkeeVerif.Proofs.RandProjLemmas
 /-!
@@ -21,11 +23,14 @@ Gaussian entries).  `sqrt` is an oracle with the contract `0 ≤ s ∧ s * s = x
 
 Status of the planned statements
 * `spe_indices_perm_global`, `spe_global_pairs_distinct` — proved at full strength.
-* `spe_indices_perm_local` — FALSE of the code as it stands (finding F-SPE-LOCAL): `spe_indices_perm_local_refuted`
-  with a concrete witness, `spe_local_duplicate_first_members` (the consequence: one point selected twice in one
-  iteration, two points gone for good), and `spe_indices_local_partial` (what does hold: no out-of-range access,
-  entries `< N`, every partner is one of the first `k` neighbours of its first member, no self pairs).
-  Full statement kept here:  `∀ valid neighbours, ∀ streams, ∀ t, (indices at t).Perm (List.range N)`.
+* `spe_indices_perm_local` — full statement `LocalPermClaim`: `∀ valid neighbours, ∀ streams, ∀ t, (indices at
+  t).Perm (List.range N)`.  FALSE of the code as it stands (finding F-SPE-LOCAL, in-place overwrite of the second
+  half of `indices`): `spe_indices_perm_local_refuted` with a concrete witness, `spe_local_duplicate_first_members`
+  (the consequence: one point selected twice in one iteration, two points gone for good), and
+  `spe_indices_local_partial` (what does hold: no out-of-range access, entries `< N`, every partner is one of the
+  first `k` neighbours of its first member, no self pairs).  TRUE for the repaired shape (partners in a separate
+  vector, `fixes/F-SPE-LOCAL.diff`): `spe_indices_perm_local_separate`.  `spe_indices_perm_local_current` ties the
+  claim to the shape found in the working tree (`Gen.spePartnersInPlace`, regenerated on every check).
 * `spe_pair_step_contracts` — the planned form `|D' − R| ≤ |D − R|·(1 − λ·c)` is false for `tolerance > 0`
   (at `D = R` the update moves the pair: the regulariser biases the step); what holds is proved: the exact error
   recursion `D' − R = (1−λ)(D−R) − λ·R·tol/(D+tol)` and the bounds that follow from it.
@@ -38,51 +43,77 @@ set_option linter.unusedSectionVars false
 namespace TapkeeVerif.C19
 open TapkeeVerif TapkeeVerif.Spe
 
-/-! ## SPE — index bookkeeping, global strategy -/
+/-! ## SPE — index bookkeeping
 
-/-- For every shuffle stream (each `shuffle t` a permutation of the positions — the contract of `std::shuffle`),
-    every `N`, every requested `spe_num_updates` and every iteration `t`: in the global strategy the index vector
-    is a permutation of `0..N-1`. -/
-theorem spe_indices_perm_global (nb : List (List Nat)) (k N nupReq : Nat) (shuffle : Nat → List Nat)
+`stepAt inPlace global nb k N nup shuffle fv t` is the index vector and the list of pairs `(ind1 j, ind2 j)` that
+iteration `t` of the model (`Spe.run`, through `Spe.iterate`) uses.  `inPlace` is the shape of the local strategy:
+`true` = partners overwrite `indices[nup .. 2nup)` (the pinned commit), `false` = partners in a separate vector (the
+repair `fixes/F-SPE-LOCAL.diff`).  Which one the working tree has is regenerated into `Gen.spePartnersInPlace`. -/
+
+/-- Global strategy.  For every shuffle stream (each `shuffle t` a permutation of the positions — the contract of
+    `std::shuffle`), every `N`, every requested `spe_num_updates`, every iteration `t` (and either shape of the local
+    branch, which is not executed): the index vector is a permutation of `0..N-1`. -/
+theorem spe_indices_perm_global (ip : Bool) (nb : List (List Nat)) (k N nupReq : Nat) (shuffle : Nat → List Nat)
     (fv : Nat → Int) (hs : ∀ t, (shuffle t).Perm (List.range N)) (t : Nat) :
-    ∃ idx, indicesAt true nb k N (clampUpdates N nupReq) shuffle fv t = .ok idx ∧ idx.Perm (List.range N) :=
-  indicesAt_global_perm nb k N _ shuffle fv hs t
+    ∃ idx ps, stepAt ip true nb k N (clampUpdates N nupReq) shuffle fv t = .ok (idx, ps) ∧
+      idx.Perm (List.range N) := by
+  have h2 := clampUpdates_two_mul_le N nupReq
+  have hall : ∀ s, ∃ idx, indicesAt true nb k N (clampUpdates N nupReq) shuffle fv s = .ok idx ∧
+      2 * clampUpdates N nupReq ≤ idx.length := by
+    intro s
+    obtain ⟨idx, h, hp⟩ := indicesAt_global_perm nb k N (clampUpdates N nupReq) shuffle fv hs s
+    exact ⟨idx, h, by rw [hp.length_eq]; simpa using h2⟩
+  obtain ⟨idx, ps, hst, hi, _, _⟩ := stepAt_of_indicesAt (ip := ip) (global := true) (by simp) nb k N _ shuffle fv hall t
+  obtain ⟨idx', h', hp⟩ := indicesAt_global_perm nb k N (clampUpdates N nupReq) shuffle fv hs t
+  rw [hi] at h'
+  cases h'
+  exact ⟨idx, ps, hst, hp⟩
 
 example : ∀ t, ((fun _ => [2, 0, 1] : Nat → List Nat) t).Perm (List.range 3) :=
   fun _ => (by decide : List.Perm [2, 0, 1] (List.range 3))
 
-/-- Consequences for the pairs updated at iteration `t` (global strategy): reading the pairs never leaves the
-    vector, every index is `< N`, `ind1 j ≠ ind2 j` (no self pairs), and the `2·nup` indices are pairwise
-    distinct. -/
-theorem spe_global_pairs_distinct (nb : List (List Nat)) (k N nupReq : Nat) (shuffle : Nat → List Nat)
+/-- Consequences for the pairs updated at iteration `t` (global strategy): there are exactly `nup` of them, pair `j`
+    is `(indices[j], indices[nup+j])`, every index is `< N`, `ind1 j ≠ ind2 j` (no self pairs), and the `2·nup`
+    indices of an iteration are pairwise distinct (each point is moved at most once per iteration). -/
+theorem spe_global_pairs_distinct (ip : Bool) (nb : List (List Nat)) (k N nupReq : Nat) (shuffle : Nat → List Nat)
     (fv : Nat → Int) (hs : ∀ t, (shuffle t).Perm (List.range N)) (t : Nat) :
-    ∃ idx ps, indicesAt true nb k N (clampUpdates N nupReq) shuffle fv t = .ok idx ∧
-      pairsOf (clampUpdates N nupReq) idx (clampUpdates N nupReq) 0 = .ok ps ∧
+    ∃ idx ps, stepAt ip true nb k N (clampUpdates N nupReq) shuffle fv t = .ok (idx, ps) ∧
       ps.length = clampUpdates N nupReq ∧
       (∀ x ∈ idx, x < N) ∧
       (∀ j, j < clampUpdates N nupReq →
+        ps[j]? = some (ind1 idx j, ind2 (clampUpdates N nupReq) idx j) ∧
         ind1 idx j < N ∧ ind2 (clampUpdates N nupReq) idx j < N ∧ ind1 idx j ≠ ind2 (clampUpdates N nupReq) idx j) ∧
       (∀ p q, p < 2 * clampUpdates N nupReq → q < 2 * clampUpdates N nupReq → p ≠ q →
         idx.getD p 0 ≠ idx.getD q 0) := by
-  obtain ⟨idx, h, hp⟩ := indicesAt_global_perm nb k N (clampUpdates N nupReq) shuffle fv hs t
-  have hlen : idx.length = N := by simpa using hp.length_eq
   have h2 := clampUpdates_two_mul_le N nupReq
-  obtain ⟨ps, hps, hl⟩ := pairsOf_ok (clampUpdates N nupReq) idx (by omega) (clampUpdates N nupReq) 0 (by omega)
-  refine ⟨idx, ps, h, hps, hl, perm_range_lt hp, ?_, ?_⟩
+  have hall : ∀ s, ∃ idx, indicesAt true nb k N (clampUpdates N nupReq) shuffle fv s = .ok idx ∧
+      2 * clampUpdates N nupReq ≤ idx.length := by
+    intro s
+    obtain ⟨idx, h, hp⟩ := indicesAt_global_perm nb k N (clampUpdates N nupReq) shuffle fv hs s
+    exact ⟨idx, h, by rw [hp.length_eq]; simpa using h2⟩
+  obtain ⟨idx, ps, hst, hi, hps, hl⟩ :=
+    stepAt_of_indicesAt (ip := ip) (global := true) (by simp) nb k N _ shuffle fv hall t
+  obtain ⟨idx', h', hp⟩ := indicesAt_global_perm nb k N (clampUpdates N nupReq) shuffle fv hs t
+  rw [hi] at h'
+  cases h'
+  have hlen : idx.length = N := by simpa using hp.length_eq
+  refine ⟨idx, ps, hst, hl, perm_range_lt hp, ?_, ?_⟩
   · intro j hj
-    refine ⟨getD_lt_of_all (perm_range_lt hp) (by omega), getD_lt_of_all (perm_range_lt hp) (by omega), ?_⟩
+    have hg := pairsOf_get (clampUpdates N nupReq) idx (by omega) (clampUpdates N nupReq) 0 ps (by omega) hps j hj
+    rw [Nat.zero_add] at hg
+    refine ⟨hg, getD_lt_of_all (perm_range_lt hp) (by omega), getD_lt_of_all (perm_range_lt hp) (by omega), ?_⟩
     exact perm_getD_ne hp (by omega) (by omega) (by omega)
   · intro p q hp' hq' hpq
     exact perm_getD_ne hp (by omega) (by omega) hpq
 
-/-! ## SPE — index bookkeeping, local strategy -/
-
-/-- `spe_indices_perm_local` at full strength: the statement one would like to have (and that the proposed patch
-    `fixes/F-SPE-LOCAL.diff` restores). -/
-def LocalPermClaim : Prop :=
+/-- `spe_indices_perm_local` at full strength, for a given shape of the local branch: valid neighbour lists, every
+    shuffle stream, every stream of floor values in range, every iteration: the index vector is a permutation of
+    `0..N-1` (so each point is a first member at most once per iteration and every point keeps being selected). -/
+def LocalPermClaim (ip : Bool) : Prop :=
   ∀ (nb : List (List Nat)) (N k nupReq : Nat) (shuffle : Nat → List Nat) (fv : Nat → Int),
     ValidNeighbors nb N k → (∀ t, (shuffle t).Perm (List.range N)) → (∀ c, 0 ≤ fv c ∧ fv c < k) →
-    ∀ t, ∃ idx, indicesAt false nb k N (clampUpdates N nupReq) shuffle fv t = .ok idx ∧ idx.Perm (List.range N)
+    ∀ t, ∃ idx ps, stepAt ip false nb k N (clampUpdates N nupReq) shuffle fv t = .ok (idx, ps) ∧
+      idx.Perm (List.range N)
 
 /-- the witness: 3 points, 2 neighbours each -/
 def witnessNb : List (List Nat) := [[2, 1], [0, 2], [0, 1]]
@@ -90,14 +121,15 @@ def witnessNb : List (List Nat) := [[2, 1], [0, 2], [0, 1]]
 theorem witnessNb_valid : ValidNeighbors witnessNb 3 2 :=
   ⟨rfl, by decide, by decide, by decide⟩
 
-/-- FALSE on the code as written (F-SPE-LOCAL): already the first iteration turns `[0,1,2]` into `[0,2,2]`
-    (identity shuffle, first neighbour picked): the overwrite of `indices[nupdates + j]` destroys the permutation. -/
-theorem spe_indices_perm_local_refuted : ¬ LocalPermClaim := by
+/-- FALSE for the in-place shape — the code at the pinned commit (F-SPE-LOCAL): already the first iteration turns
+    `[0,1,2]` into `[0,2,2]` (identity shuffle, first neighbour picked): the overwrite of `indices[nupdates + j]`
+    destroys the permutation. -/
+theorem spe_indices_perm_local_refuted : ¬ LocalPermClaim true := by
   intro h
-  obtain ⟨idx, h1, h2⟩ := h witnessNb 3 2 1 (fun _ => [0, 1, 2]) (fun _ => 0) witnessNb_valid
+  obtain ⟨idx, ps, h1, h2⟩ := h witnessNb 3 2 1 (fun _ => [0, 1, 2]) (fun _ => 0) witnessNb_valid
     (fun _ => by decide) (fun _ => by decide) 0
-  have hval : indicesAt false witnessNb 2 3 (clampUpdates 3 1) (fun _ => [0, 1, 2]) (fun _ => 0) 0
-      = .ok [0, 2, 2] := by decide
+  have hval : stepAt true false witnessNb 2 3 (clampUpdates 3 1) (fun _ => [0, 1, 2]) (fun _ => 0) 0
+      = .ok ([0, 2, 2], [(0, 2)]) := by decide
   rw [hval] at h1
   cases h1
   have : ([0, 2, 2] : List Nat).Nodup := (h2.nodup_iff).mpr List.nodup_range
@@ -107,34 +139,89 @@ theorem spe_indices_perm_local_refuted : ¬ LocalPermClaim := by
     vector is `[0,1,1,0]` — points 2 and 3 have left it for good (only neighbours of 0 and 1 can enter) — and at
     iteration 1 (shuffle `[0,3,1,2]`) point 0 is the first member of BOTH updated pairs. -/
 theorem spe_local_duplicate_first_members :
-    indicesAt false [[1], [0], [3], [2]] 1 4 (clampUpdates 4 2)
-        (fun t => if t = 0 then [0, 1, 2, 3] else [0, 3, 1, 2]) (fun _ => 0) 1 = .ok [0, 0, 1, 1] ∧
-      pairsOf 2 [0, 0, 1, 1] 2 0 = .ok [(0, 1), (0, 1)] := by
+    stepAt true false [[1], [0], [3], [2]] 1 4 (clampUpdates 4 2)
+        (fun t => if t = 0 then [0, 1, 2, 3] else [0, 3, 1, 2]) (fun _ => 0) 1
+      = .ok ([0, 0, 1, 1], [(0, 1), (0, 1)]) := by
   decide
 
-/-- What DOES hold in the local strategy, for every stream and every iteration (`_partial` twin of
+/-- TRUE for the shape with a separate partners vector (the proposed repair): the full statement, together with
+    what the pairs are — pair `j` is (`indices[j]`, one of the first `k` neighbours of it), all `< N`, no self
+    pairs, first members pairwise distinct. -/
+theorem spe_indices_perm_local_separate : LocalPermClaim false ∧
+    ∀ (nb : List (List Nat)) (N k nupReq : Nat) (shuffle : Nat → List Nat) (fv : Nat → Int),
+      ValidNeighbors nb N k → (∀ t, (shuffle t).Perm (List.range N)) → (∀ c, 0 ≤ fv c ∧ fv c < k) →
+      ∀ t, ∃ idx ps, stepAt false false nb k N (clampUpdates N nupReq) shuffle fv t = .ok (idx, ps) ∧
+        idx.Perm (List.range N) ∧ ps.length = clampUpdates N nupReq ∧
+        (∀ j, j < clampUpdates N nupReq → ∃ b, ps[j]? = some (ind1 idx j, b) ∧
+          b ∈ (nb.getD (ind1 idx j) []).take k ∧ ind1 idx j < N ∧ b < N ∧ ind1 idx j ≠ b) ∧
+        (∀ j j', j < clampUpdates N nupReq → j' < clampUpdates N nupReq → j ≠ j' → ind1 idx j ≠ ind1 idx j') := by
+  have main : ∀ (nb : List (List Nat)) (N k nupReq : Nat) (shuffle : Nat → List Nat) (fv : Nat → Int),
+      ValidNeighbors nb N k → (∀ t, (shuffle t).Perm (List.range N)) → (∀ c, 0 ≤ fv c ∧ fv c < k) →
+      ∀ t, ∃ idx ps, stepAt false false nb k N (clampUpdates N nupReq) shuffle fv t = .ok (idx, ps) ∧
+        idx.Perm (List.range N) ∧ ps.length = clampUpdates N nupReq ∧
+        (∀ j, j < clampUpdates N nupReq → ∃ b, ps[j]? = some (ind1 idx j, b) ∧
+          b ∈ (nb.getD (ind1 idx j) []).take k ∧ ind1 idx j < N ∧ b < N ∧ ind1 idx j ≠ b) ∧
+        (∀ j j', j < clampUpdates N nupReq → j' < clampUpdates N nupReq → j ≠ j' → ind1 idx j ≠ ind1 idx j') := by
+    intro nb N k nupReq shuffle fv hv hs hfv t
+    have h2 := clampUpdates_two_mul_le N nupReq
+    obtain ⟨idx, ps, hst, hp, hl, hpairs⟩ := stepAt_separate hv h2 shuffle hs fv hfv t
+    have hlen : idx.length = N := by simpa using hp.length_eq
+    refine ⟨idx, ps, hst, hp, hl, ?_, ?_⟩
+    · intro j hj
+      obtain ⟨b, hb1, hb2⟩ := hpairs j hj
+      have hjl : j < idx.length := by omega
+      have hm := rowOf_mem hv (perm_range_lt hp) hjl hb2
+      exact ⟨b, hb1, hb2, getD_lt_of_all (perm_range_lt hp) hjl, hm.1, fun he => hm.2 he.symm⟩
+    · intro j j' hj hj' hne
+      exact perm_getD_ne hp (by omega) (by omega) hne
+  refine ⟨?_, main⟩
+  intro nb N k nupReq shuffle fv hv hs hfv t
+  obtain ⟨idx, ps, h, hp, _⟩ := main nb N k nupReq shuffle fv hv hs hfv t
+  exact ⟨idx, ps, h, hp⟩
+
+/-- The tie to the working tree: `Gen.spePartnersInPlace` is regenerated from `routines/spe.hpp` on every check, and
+    the full statement holds for the tree exactly when the tree keeps the partners apart.  (Compiles for either
+    value; on the pinned commit it reads `LocalPermClaim true ↔ False`.) -/
+theorem spe_indices_perm_local_current :
+    LocalPermClaim Gen.spePartnersInPlace ↔ Gen.spePartnersInPlace = false := by
+  cases h : Gen.spePartnersInPlace with
+  | true => exact ⟨fun hc => absurd hc spe_indices_perm_local_refuted, fun hc => by cases hc⟩
+  | false => exact ⟨fun _ => rfl, fun _ => spe_indices_perm_local_separate.1⟩
+
+/-- What DOES hold for the in-place shape, for every stream and every iteration (`_partial` twin of
     `spe_indices_perm_local`): the bookkeeping never reads or writes out of range (`ind1Neighbors`, `neighbors`,
     `indices`: the model's `oob` state is not reached), the vector keeps length `N` and entries `< N`, every
     partner `ind2 j` is one of the first `k` neighbours of `ind1 j`, and there are no self pairs. -/
 theorem spe_indices_local_partial {N k nupReq : Nat} {nb : List (List Nat)} (hv : ValidNeighbors nb N k)
     (shuffle : Nat → List Nat) (hs : ∀ t, (shuffle t).Perm (List.range N))
     (fv : Nat → Int) (hfv : ∀ c, 0 ≤ fv c ∧ fv c < k) (t : Nat) :
-    ∃ idx ps, indicesAt false nb k N (clampUpdates N nupReq) shuffle fv t = .ok idx ∧
-      pairsOf (clampUpdates N nupReq) idx (clampUpdates N nupReq) 0 = .ok ps ∧
+    ∃ idx ps, stepAt true false nb k N (clampUpdates N nupReq) shuffle fv t = .ok (idx, ps) ∧
+      ps.length = clampUpdates N nupReq ∧
       idx.length = N ∧ (∀ x ∈ idx, x < N) ∧
       ∀ j, j < clampUpdates N nupReq →
+        ps[j]? = some (ind1 idx j, ind2 (clampUpdates N nupReq) idx j) ∧
         ind1 idx j < N ∧ ind2 (clampUpdates N nupReq) idx j < N ∧
         ind2 (clampUpdates N nupReq) idx j ∈ (nb.getD (ind1 idx j) []).take k ∧
         ind1 idx j ≠ ind2 (clampUpdates N nupReq) idx j := by
   have h2 := clampUpdates_two_mul_le N nupReq
-  obtain ⟨idx, h, hb, hp⟩ := indicesAt_local hv h2 shuffle hs fv hfv t
-  obtain ⟨ps, hps, _⟩ := pairsOf_ok (clampUpdates N nupReq) idx (by rw [hb.1]; omega) (clampUpdates N nupReq) 0
-    (by omega)
-  refine ⟨idx, ps, h, hps, hb.1, hb.2, ?_⟩
+  have hall : ∀ s, ∃ idx, indicesAt false nb k N (clampUpdates N nupReq) shuffle fv s = .ok idx ∧
+      2 * clampUpdates N nupReq ≤ idx.length := by
+    intro s
+    obtain ⟨idx, h, hb, _⟩ := indicesAt_local hv h2 shuffle hs fv hfv s
+    exact ⟨idx, h, by rw [hb.1]; exact h2⟩
+  obtain ⟨idx, ps, hst, hi, hps, hl⟩ :=
+    stepAt_of_indicesAt (ip := true) (global := false) (by simp) nb k N _ shuffle fv hall t
+  obtain ⟨idx', h', hb, hp⟩ := indicesAt_local hv h2 shuffle hs fv hfv t
+  rw [hi] at h'
+  cases h'
+  refine ⟨idx, ps, hst, hl, hb.1, hb.2, ?_⟩
   intro j hj
   have hjl : j < idx.length := by rw [hb.1]; omega
   have hm := rowOf_mem hv hb.2 hjl (hp j hj)
-  exact ⟨getD_lt_of_all hb.2 hjl, hm.1, hp j hj, fun he => hm.2 he.symm⟩
+  have hg := pairsOf_get (clampUpdates N nupReq) idx (by rw [hb.1]; omega) (clampUpdates N nupReq) 0 ps
+    (by omega) hps j hj
+  rw [Nat.zero_add] at hg
+  exact ⟨hg, getD_lt_of_all hb.2 hjl, hm.1, hp j hj, fun he => hm.2 he.symm⟩
 
 example : ValidNeighbors witnessNb 3 2 := witnessNb_valid
 
